@@ -110,6 +110,13 @@ pub fn run_seed(args: &[String]) {
         add("headers:+(8,8,9)".into(), &|q| q.continuous_page_headers.push(hdr(8, 8, 9)));
         add("headers:+(7,9,9)".into(), &|q| q.continuous_page_headers.push(hdr(7, 9, 9)));
         add("headers:+(7,8,10)".into(), &|q| q.continuous_page_headers.push(hdr(7, 8, 10)));
+        // boundary values: a zero-size page, a zero start address, a zero hash are still declared pages
+        add("headers:+(7,0,9)".into(), &|q| q.continuous_page_headers.push(hdr(7, 0, 9)));
+        add("headers:+(0,8,9)".into(), &|q| q.continuous_page_headers.push(hdr(0, 8, 9)));
+        add("headers:+(7,8,0)".into(), &|q| q.continuous_page_headers.push(hdr(7, 8, 0)));
+        add("headers:+(0,0,0)".into(), &|q| q.continuous_page_headers.push(hdr(0, 0, 0)));
+        add("headers:+(7,8,9),(7,0,9)".into(), &|q| { q.continuous_page_headers.push(hdr(7, 8, 9)); q.continuous_page_headers.push(hdr(7, 0, 9)); });
+        add("headers:+(7,0,9),(7,8,9)".into(), &|q| { q.continuous_page_headers.push(hdr(7, 0, 9)); q.continuous_page_headers.push(hdr(7, 8, 9)); });
         add("headers:+(7,8,9),(7,8,9)".into(), &|q| { q.continuous_page_headers.push(hdr(7, 8, 9)); q.continuous_page_headers.push(hdr(7, 8, 9)); });
         if let Some(dp) = &pi.dynamic_params {
             let v: Vec<usize> = dp.clone().into();
